@@ -179,3 +179,40 @@ let run args =
        | [ns; slot; blk] when ns >= 4 && ns <= 6 ->
          print_endline (run_case ~checked ~ffr ns slot blk (List.map String.trim (String.split_on_char ';' body)))
        | _ -> print_endline "?slots"))
+
+
+(* gsession: the delivery part of a session on blank flash, run through BOTH the byte-level model Mgr.v and the
+   storage-interface instance Updater.run_session (GRecon.v over Sim.v's flash storages, the object of the byte-level
+   theorems); prints AGREE when outcomes and every flash program agree.   case: slot n sz blk|idx:hex,... *)
+let grun () =
+  iter_lines (fun line ->
+    match String.split_on_char '|' line with
+    | [hd; frs] ->
+      (match List.map int_of_string (words hd) with
+       | [slot; n; sz; blk] ->
+         let frs = List.filter_map (fun t -> match String.split_on_char ':' (String.trim t) with
+             | [a; b] -> Some (int_of_string a, b) | _ -> None) (String.split_on_char ',' frs) in
+         let ((rs, wl), _cap) = Updater.run_session (n_of_int slot) (n_of_int n) (n_of_int sz) (List.map (fun (i, h) -> (nat_of_int i, n_of_le_hex h)) frs) in
+         let m = { Mgr.m_slots = nat_of_int 4; m_size = n_of_int slot } in
+         let d0 = Mgr.blank_dev (n_of_int (4 * slot)) (n_of_int blk) in
+         (match Mgr.start_update m (n_of_int sz) (n_of_int n) d0 with
+          | (d1, Mgr.ROk u) ->
+            let w0 = List.length d1.Mgr.dlog in
+            let rec feed d u frs acc = match frs with
+              | [] -> (d, List.rev acc)
+              | (i, h) :: tl ->
+                let ((d', u'), r) = Mgr.handle_segment true false m u (n_of_int i) (n_of_le_hex h) (n_of_int sz) d in
+                (match r with
+                 | Mgr.ROk Mgr.FirmwareComplete -> (d', List.rev ("D" :: acc))
+                 | Mgr.ROk Mgr.Consumed -> feed d' u' tl ((if u'.Mgr.u_rd.MRecon.l = O && int_of_nat u.Mgr.u_rd.MRecon.l = 0 && i > n then "T" else "N") :: acc)
+                 | _ -> (d', List.rev ("E" :: acc))) in
+            let (d2, mres) = feed d1 u frs [] in
+            let mw = List.rev (firstn (List.length d2.Mgr.dlog - w0) d2.Mgr.dlog) in
+            let gres = List.map (function GRecon.NeedMore -> "N" | GRecon.TooManyMissing -> "T" | GRecon.Done _ -> "D") rs in
+            let same_w = List.length mw = List.length wl && List.for_all2 (fun a ((ga, gl), gv) -> match a with
+                | Mgr.FProg (a, l, v, _) -> a = ga && l = gl && v = gv | _ -> false) mw wl in
+            if mres = gres && same_w then Printf.printf "AGREE %d %d\n" (List.length gres) (List.length wl)
+            else Printf.printf "MODEL-INTERNAL-MISMATCH results %s vs %s writes %d vs %d\n" (String.concat "" mres) (String.concat "" gres) (List.length mw) (List.length wl)
+          | _ -> print_endline "MODEL-INTERNAL-MISMATCH start failed")
+       | _ -> print_endline "?")
+    | _ -> print_endline "?")
